@@ -161,4 +161,237 @@ theorem as_matrix_value_partial (t : Tree) (hnd : t.ids.Nodup) (ov : Nat → Asg
   exact Expr.eval_unique dim e _ hswf hO (hbinds.symm.trans hOb.symm)
     (hleaves.trans (layExpr_leaves (opLayerCC ov) t none).symm) σ
 
+/-! ### `<psi| O |psi>`: provenance — the loop itself is such a program -/
+
+/-- the operator layer of `expectation_value`: the operator's own child order, bonds recorded `(child, parent)` -/
+def opLayer (ov : Nat → Asg Leg → R) (opKids : Nat → List Nat) : Layer R :=
+  ⟨Leg.gOp, fun i p _ => (gOpT i ⟨p, opKids i⟩).legs, ov, true⟩
+/-- the bra layer of `expectation_value`: the conjugated ket tensors, on the ket's nodes -/
+def braLayerK (bv : Nat → Asg Leg → R) : Layer R :=
+  ⟨Leg.gBra, fun i p kids => (gBraT i ⟨p, kids⟩).legs, bv, true⟩
+
+def opExpr (ov : Nat → Asg Leg → R) (opKids : Nat → List Nat) (t : Tree) : Expr Leg R :=
+  layExpr (opLayer ov opKids) none t
+def braExprK (bv : Nat → Asg Leg → R) (t : Tree) : Expr Leg R := layExpr (braLayerK bv) none t
+
+def OpLocalK (ov : Nat → Asg Leg → R) (opKids : Nat → List Nat) (t : Tree) : Prop :=
+  ∀ e ∈ Tree.info none t, DependsOn (· ∈ (gOpT e.1 ⟨e.2.1, opKids e.1⟩).legs) (ov e.1)
+def BraLocalK (bv : Nat → Asg Leg → R) (t : Tree) : Prop :=
+  ∀ e ∈ Tree.info none t, DependsOn (· ∈ (gBraT e.1 ⟨e.2.1, e.2.2⟩).legs) (bv e.1)
+
+mutual
+theorem count_soSpec_split (x : Leg × Leg) : ∀ t : Tree, (soSpec t).count x =
+    (t.ids.map physOut).count x + (t.ids.map physIn).count x + (t.edges.map fun e => ketEdge e.1 e.2).count x +
+      (t.edges.map fun e => opEdge e.1 e.2).count x + (t.edges.map fun e => braEdge e.1 e.2).count x
+  | .node i ks => by
+    have := count_soSpecL_split x i ks
+    simp only [soSpec, Tree.ids, Tree.edges, List.map_cons, List.count_cons] at this ⊢
+    omega
+theorem count_soSpecL_split (x : Leg × Leg) (i : Nat) : ∀ ts : List Tree, (soSpecL i ts).count x =
+    ((Tree.idsL ts).map physOut).count x + ((Tree.idsL ts).map physIn).count x +
+      ((Tree.edgesL i ts).map fun e => ketEdge e.1 e.2).count x +
+      ((Tree.edgesL i ts).map fun e => opEdge e.1 e.2).count x +
+      ((Tree.edgesL i ts).map fun e => braEdge e.1 e.2).count x
+  | [] => by simp [soSpecL, Tree.idsL, Tree.edgesL]
+  | c :: cs => by
+    have h1 := count_soSpec_split x c
+    have h2 := count_soSpecL_split x i cs
+    simp only [soSpecL, Tree.idsL, Tree.edgesL, List.map_cons, List.map_append, List.count_cons, List.count_append]
+      at h1 h2 ⊢
+    omega
+end
+
+theorem so_nodeOK (kv ov bv : Nat → Asg Leg → R) (opKids : Nat → List Nat) (e : Nat × Option Nat × List Nat)
+    (hn : (e.2.1.toList ++ e.2.2).Nodup) (hp : (opKids e.1).Perm e.2.2) :
+    NodeOK (soNodeLeaves opKids kv ov bv) e := by
+  obtain ⟨i, p, kids⟩ := e
+  simp only at hn hp
+  have hn' : (p.toList ++ opKids i).Nodup := (List.Perm.append_left _ hp).nodup_iff.2 hn
+  have hk : (List.map (Leg.gKet i) (p.toList ++ kids) ++ [Leg.gKetPhys i]).Nodup := by
+    rw [List.nodup_append]
+    refine ⟨nodup_map_of_inj_on _ _ hn (fun x _ y _ h => by injection h), by simp, ?_⟩
+    intro x hx y hy hxy; simp only [List.mem_singleton] at hy; subst hy; subst hxy; simp at hx
+  have ho : (List.map (Leg.gOp i) (p.toList ++ opKids i) ++ [Leg.gOpOut i, Leg.gOpIn i]).Nodup := by
+    rw [List.nodup_append]
+    refine ⟨nodup_map_of_inj_on _ _ hn' (fun x _ y _ h => by injection h), by simp, ?_⟩
+    intro x hx y hy hxy; subst hxy
+    obtain ⟨_, _, rfl⟩ := List.mem_map.1 hx
+    simp at hy
+  have hb : (List.map (Leg.gBra i) (p.toList ++ kids) ++ [Leg.gBraPhys i]).Nodup := by
+    rw [List.nodup_append]
+    refine ⟨nodup_map_of_inj_on _ _ hn (fun x _ y _ h => by injection h), by simp, ?_⟩
+    intro x hx y hy hxy; simp only [List.mem_singleton] at hy; subst hy; subst hxy; simp at hx
+  constructor
+  · simp only [labelsOf, soNodeLeaves, gKetT, gOpT, gBraT, T.fresh, Node.nbrs, List.flatMap_cons, List.flatMap_nil,
+      List.append_nil]
+    rw [List.nodup_append]
+    refine ⟨hk, ?_, ?_⟩
+    · rw [List.nodup_append]
+      refine ⟨ho, hb, ?_⟩
+      intro x hx y hy hxy
+      subst hxy
+      simp only [List.mem_append, List.mem_map, List.mem_cons, List.not_mem_nil, or_false] at hx hy
+      rcases hx with ⟨_, _, rfl⟩ | rfl | rfl <;> rcases hy with ⟨_, _, h⟩ | h <;> simp at h
+    · intro x hx y hy hxy
+      subst hxy
+      simp only [List.mem_append, List.mem_map, List.mem_cons, List.not_mem_nil, or_false] at hx hy
+      rcases hx with ⟨_, _, rfl⟩ | rfl <;> rcases hy with (⟨_, _, h⟩ | h | h) | ⟨_, _, h⟩ | h <;> simp at h
+  · intro l hl
+    simp only [labelsOf, soNodeLeaves, gKetT, gOpT, gBraT, T.fresh, Node.nbrs, List.flatMap_cons, List.flatMap_nil,
+      List.append_nil, List.mem_append, List.mem_map, List.mem_cons, List.not_mem_nil, or_false] at hl
+    rcases hl with (⟨_, _, rfl⟩ | rfl) | (⟨_, _, rfl⟩ | rfl | rfl) | (⟨_, _, rfl⟩ | rfl) <;> rfl
+
+theorem soNodeLeaves_eq (kv ov bv : Nat → Asg Leg → R) (opKids : Nat → List Nat) :
+    soNodeLeaves opKids kv ov bv = fun i p k => (ketLayer kv).nodeLeaves i p k ++
+      ((fun i p k => (opLayer ov opKids).nodeLeaves i p k ++ (braLayerK bv).nodeLeaves i p k) i p k) := rfl
+
+/-- **`expectation_value` computes the dense `<psi| O |psi>` — the loop itself, unconditionally in the program.**
+For every tree with distinct identifiers, every child order of the operator network, every commutative semiring
+and ALL values of the node tensors (each reading only its own legs): the loop returns a closed tensor; it is
+BUILT by the model's `tensordot` calls from exactly the ket, operator and bra tensors of all nodes; and EVERY
+expression it is built from over these leaves is strongly well-formed and evaluates — for all dimensions that
+give both legs of every pair of the specification graph the same dimension — to `Σ_out (Σ_in K·O)·B` with the
+canonical dense ket `ketExpr`, dense operator `opExpr` and dense bra `braExprK`. -/
+theorem expectation_value_loop_value (t : Tree) (hnd : t.ids.Nodup) (opKids : Nat → List Nat)
+    (hperm : ∀ e ∈ Tree.info none t, (opKids e.1).Perm e.2.2)
+    (kv ov bv : Nat → Asg Leg → R) (hkv : KetLocal kv t) (hov : OpLocalK ov opKids t) (hbv : BraLocalK bv t) :
+    ∃ binds, expectationValue (netOf t (fun _ ks => ks) gKetT) (netOf t (fun i _ => opKids i) gOpT) gBraT
+        = some ⟨[], binds⟩ ∧
+      (∃ e : Expr Leg R, Built ⟨[], binds⟩ e ∧ e.leaves.Perm (soLeaves opKids kv ov bv none t)) ∧
+      ∀ e : Expr Leg R, Built ⟨[], binds⟩ e → e.leaves.Perm (soLeaves opKids kv ov bv none t) →
+        e.SWF ∧ e.binds.Perm binds ∧ e.free = [] ∧
+        ∀ (dim : Leg → Nat), (∀ p ∈ soSpec t, dim p.1 = dim p.2) → ∀ σ : Asg Leg, e.eval dim σ =
+          sumPairs dim (t.ids.map physOut)
+            (fun τ => sumPairs dim (t.ids.map physIn)
+              (fun ρ => (ketExpr kv t).eval dim ρ * (opExpr ov opKids t).eval dim ρ) τ *
+              (braExprK bv t).eval dim τ) σ := by
+  refine ⟨_, expectationValue_eq t hnd opKids hperm, expectationValue_built kv ov bv t hnd opKids hperm, ?_⟩
+  intro e hbuilt hleaves
+  have hnone : ∀ q, (none : Option Nat) = some q → q ∉ t.ids := fun q hq => by simp at hq
+  have hnb := info_nbrs_nodup t none hnd hnone
+  have hok : ∀ e ∈ Tree.info none t, NodeOK (soNodeLeaves opKids kv ov bv) e :=
+    fun e he => so_nodeOK kv ov bv opKids e (hnb e he) (hperm e he)
+  have hlab := treeLeaves_labels (soNodeLeaves opKids kv ov bv) t none hnd hok
+  have hend : e.labels.Nodup := by
+    rw [Expr.labels_eq_leaves]
+    exact (hleaves.flatMap_right _).nodup_iff.2 hlab.1
+  have hloc : e.LeavesLocal := by
+    intro lf hlf
+    obtain ⟨x, hx, h⟩ := treeLeaves_sub _ t none lf (hleaves.mem_iff.1 hlf)
+    simp only [soNodeLeaves, List.mem_cons, List.not_mem_nil, or_false] at h
+    rcases h with rfl | rfl | rfl
+    · exact hkv x hx
+    · exact hov x hx
+    · exact hbv x hx
+  have hswf := hbuilt.swf hend hloc
+  obtain ⟨hbinds, hlegs, _⟩ := hbuilt.sound hend
+  refine ⟨hswf, hbinds.symm, List.Perm.eq_nil hlegs.symm, ?_⟩
+  -- the three dense layers
+  let ΛO := opLayer ov opKids
+  let ΛB := braLayerK bv
+  have hokK : ∀ e ∈ Tree.info none t, NodeOK (ketLayer kv).nodeLeaves e := fun e he =>
+    nodeOK_left (f := (ketLayer kv).nodeLeaves)
+      (g := fun i p k => ΛO.nodeLeaves i p k ++ ΛB.nodeLeaves i p k) (hok e he)
+  have hokOB : ∀ e ∈ Tree.info none t, NodeOK (fun i p k => ΛO.nodeLeaves i p k ++ ΛB.nodeLeaves i p k) e :=
+    fun e he => nodeOK_right (f := (ketLayer kv).nodeLeaves)
+      (g := fun i p k => ΛO.nodeLeaves i p k ++ ΛB.nodeLeaves i p k) (hok e he)
+  have hokO : ∀ e ∈ Tree.info none t, NodeOK ΛO.nodeLeaves e := fun e he =>
+    nodeOK_left (f := ΛO.nodeLeaves) (g := ΛB.nodeLeaves) (hokOB e he)
+  have hokB : ∀ e ∈ Tree.info none t, NodeOK ΛB.nodeLeaves e := fun e he =>
+    nodeOK_right (f := ΛO.nodeLeaves) (g := ΛB.nodeLeaves) (hokOB e he)
+  have hK : (ketExpr kv t).SWF := layExpr_swf (ketLayer kv) (ketLayer_inj kv) t none hnd hnone
+    (fun e _ n hn => by
+      simp only [ketLayer, gKetT, T.fresh, Node.nbrs, List.mem_append, List.mem_map]
+      exact Or.inl ⟨n, List.mem_append.1 hn, rfl⟩)
+    hokK hkv
+  have hO : (opExpr ov opKids t).SWF := layExpr_swf ΛO
+    (fun a b a' b' h => by simp only [ΛO, opLayer] at h; injection h with h1 h2; exact ⟨h1, h2⟩) t none hnd hnone
+    (fun e he n hn => by
+      simp only [ΛO, opLayer, gOpT, T.fresh, Node.nbrs, List.mem_append, List.mem_map]
+      refine Or.inl ⟨n, ?_, rfl⟩
+      rcases List.mem_append.1 hn with h | h
+      · exact Or.inl h
+      · exact Or.inr ((hperm e he).mem_iff.2 h))
+    hokO hov
+  have hB : (braExprK bv t).SWF := layExpr_swf ΛB
+    (fun a b a' b' h => by simp only [ΛB, braLayerK] at h; injection h with h1 h2; exact ⟨h1, h2⟩) t none hnd hnone
+    (fun e _ n hn => by
+      simp only [ΛB, braLayerK, gBraT, T.fresh, Node.nbrs, List.mem_append, List.mem_map]
+      exact Or.inl ⟨n, List.mem_append.1 hn, rfl⟩)
+    hokB hbv
+  have hLK := layExpr_leaves (ketLayer kv) t none
+  have hLO := layExpr_leaves ΛO t none
+  have hLB := layExpr_leaves ΛB t none
+  have hsplit : (soLeaves opKids kv ov bv none t).Perm
+      ((ketExpr kv t).leaves ++ ((opExpr ov opKids t).leaves ++ (braExprK bv t).leaves)) := by
+    have h1 := treeLeaves_append (ketLayer kv).nodeLeaves
+      (fun i p k => ΛO.nodeLeaves i p k ++ ΛB.nodeLeaves i p k) t none
+    have h2 := treeLeaves_append ΛO.nodeLeaves ΛB.nodeLeaves t none
+    exact h1.trans (List.Perm.append hLK.symm (h2.trans (List.Perm.append hLO.symm hLB.symm)))
+  have hndAll : ((ketExpr kv t).labels ++ ((opExpr ov opKids t).labels ++ (braExprK bv t).labels)).Nodup := by
+    have h1 := (hsplit.flatMap_right (·.1)).nodup_iff.1 hlab.1
+    simpa [List.flatMap_append, ← Expr.labels_eq_leaves] using h1
+  rw [List.nodup_append] at hndAll
+  obtain ⟨_, hndOB, hdisK⟩ := hndAll
+  rw [List.nodup_append] at hndOB
+  have hKO : ∀ l ∈ (ketExpr kv t).labels, l ∉ (opExpr ov opKids t).labels :=
+    fun l hl hl' => hdisK l hl l (List.mem_append.2 (Or.inl hl')) rfl
+  have hKB : ∀ l ∈ (ketExpr kv t).labels, l ∉ (braExprK bv t).labels :=
+    fun l hl hl' => hdisK l hl l (List.mem_append.2 (Or.inr hl')) rfl
+  have hOB : ∀ l ∈ (opExpr ov opKids t).labels, l ∉ (braExprK bv t).labels :=
+    fun l hl hl' => hndOB.2.2 l hl l hl' rfl
+  have hmemInfo : ∀ n ∈ t.ids, ∃ x ∈ Tree.info none t, x.1 = n := by
+    intro n hn
+    rw [← Tree.info_keys none t] at hn
+    obtain ⟨x, hx, rfl⟩ := List.mem_map.1 hn
+    exact ⟨x, hx, rfl⟩
+  have hin : ∀ p ∈ t.ids.map physIn, p.1 ∈ (ketExpr kv t).free ∧ p.2 ∈ (opExpr ov opKids t).free := by
+    intro p hp
+    obtain ⟨n, hn, rfl⟩ := List.mem_map.1 hp
+    obtain ⟨x, hx, rfl⟩ := hmemInfo n hn
+    constructor
+    · apply layExpr_free_phys (ketLayer kv) _ (fun a b => by simp [physIn, ketLayer]) t none
+      simp only [labelsOf, List.mem_flatMap]
+      exact ⟨_, nodeLeaves_sub _ t none x hx _ (List.mem_singleton.2 rfl), by simp [ketLayer, gKetT, T.fresh, physIn]⟩
+    · apply layExpr_free_phys ΛO _ (fun a b => by simp [physIn, ΛO, opLayer]) t none
+      simp only [labelsOf, List.mem_flatMap]
+      exact ⟨_, nodeLeaves_sub _ t none x hx _ (List.mem_singleton.2 rfl), by simp [ΛO, opLayer, gOpT, T.fresh, physIn]⟩
+  have hout : ∀ p ∈ t.ids.map physOut, (p.1 ∈ (opExpr ov opKids t).free ∧ p.1 ∉ (t.ids.map physIn).map Prod.snd) ∧
+      p.2 ∈ (braExprK bv t).free := by
+    intro p hp
+    obtain ⟨n, hn, rfl⟩ := List.mem_map.1 hp
+    obtain ⟨x, hx, rfl⟩ := hmemInfo n hn
+    refine ⟨⟨?_, by simp [physOut, physIn]⟩, ?_⟩
+    · apply layExpr_free_phys ΛO _ (fun a b => by simp [physOut, ΛO, opLayer]) t none
+      simp only [labelsOf, List.mem_flatMap]
+      exact ⟨_, nodeLeaves_sub _ t none x hx _ (List.mem_singleton.2 rfl), by simp [ΛO, opLayer, gOpT, T.fresh, physOut]⟩
+    · apply layExpr_free_phys ΛB _ (fun a b => by simp [physOut, ΛB, braLayerK]) t none
+      simp only [labelsOf, List.mem_flatMap]
+      exact ⟨_, nodeLeaves_sub _ t none x hx _ (List.mem_singleton.2 rfl), by simp [ΛB, braLayerK, gBraT, T.fresh, physOut]⟩
+  have hKb : (ketExpr kv t).binds.Perm (t.edges.map fun e => ketEdge e.1 e.2) := by
+    have := layExpr_binds (ketLayer kv) t none
+    simpa [Layer.edge, ketLayer, ketEdge, ketExpr] using this
+  have hOb : (opExpr ov opKids t).binds.Perm (t.edges.map fun e => opEdge e.1 e.2) := by
+    have := layExpr_binds ΛO t none
+    simpa [Layer.edge, ΛO, opLayer, opEdge, opExpr] using this
+  have hBb : (braExprK bv t).binds.Perm (t.edges.map fun e => braEdge e.1 e.2) := by
+    have := layExpr_binds ΛB t none
+    simpa [Layer.edge, ΛB, braLayerK, braEdge, braExprK] using this
+  have hspec : (t.ids.map physOut ++ ((t.ids.map physIn ++ ((ketExpr kv t).binds ++ (opExpr ov opKids t).binds)) ++
+      (braExprK bv t).binds)).Perm (soSpec t) := by
+    refine (List.Perm.append_left _ (List.Perm.append (List.Perm.append_left _ (List.Perm.append hKb hOb)) hBb)).trans ?_
+    rw [List.perm_iff_count]
+    intro x
+    have := count_soSpec_split x t
+    simp only [List.count_append] at this ⊢
+    omega
+  have hrec : (unordL e.binds).Perm (unordL (soSpec t)) :=
+    (unordL_perm hbinds.symm).trans (soRootBinds_perm t)
+  intro dim hdim σ
+  apply Expr.sandwich_of_record dim e _ _ _ hswf hK.wf hO.wf hB.wf hKO hKB hOB _ _ (soSpec t) hin hout hspec hrec hdim _ σ
+  intro τ
+  rw [Expr.leafProd_of_leaves e _ (hleaves.trans hsplit) τ, List.map_append, List.map_append, prodL_append,
+    prodL_append, mul_assoc]
+  rfl
+
 end Ptn.C04
